@@ -101,8 +101,13 @@ def walkers_only_swap_targets(repo: Repo, R):
         ok = ast.unparse(f.node.body[-1]) == f"return {arg}"
         R.check(ok, rule, key_of(f), f.site, f"the base {nm} returns its argument unchanged: {ok}", why="untouched instances lose their target")
     ve = repo.func(F_WALKER, "HierarchyWalker.visit_elaboratables")
-    ok = bool(pat.find("elaborate(src)", ve.node))
-    R.check(ok, rule, key_of(ve), ve.site, f"the walk elaborates first: {ok}", why="unelaborated designs are compiled")
+    srcp = ve.node.args.args[1].arg
+    els = [c for c in au.calls_in(ve.node) if isinstance(c.func, ast.Name) and c.func.id == "elaborate" and len(c.args) == 1]
+    visits = [c for c in au.calls_in(ve.node) if isinstance(c.func, ast.Attribute) and c.func.attr.startswith("visit_") and ast.unparse(c.func.value) == "self" and len(c.args) == 1]
+    unel = [c for c in visits if not any(ast.unparse(e.args[0]) in (srcp, ast.unparse(c.args[0])) and shared.executes_before(ve.node, e, c) for e in els)]
+    ok = bool(visits) and not unel
+    R.check(ok, rule, key_of(ve), ve.at(unel[0]) if unel else ve.site, f"whatever is walked has been elaborated first, on every path — a single design and each entry of a list alike: {ok}" + (f" (`{ast.unparse(unel[0])}` is reached without it)" if unel else ""),
+            why="an unelaborated module keeps its instance arrays outside `instances`: the walk never sees them, and they are exported still pointing at the generic primitive")
     # PDK walkers: everything that is not a mapped primitive passes through
     for rel, cls in WALKERS[1:]:
         ci = repo.cls(rel, cls)
@@ -453,6 +458,33 @@ def registry(repo: Repo, R):
     fr = repo.func(F_PDK, "register")
     ok = bool(pat.find("_mgr.modules.add(module)", fr.node)) and bool(pat.find("_mgr.names[module.__name__] = module", fr.node))
     R.check(ok, rule, key_of(fr), fr.site, f"register() records the module in the set and under its name: {ok}", why="a registered PDK cannot be found by name")
+    fsd = repo.func(F_PDK, "set_default")
+    tp = fsd.node.args.args[0].arg
+    stores = [st for st in au.stmts(fsd.node) if isinstance(st, ast.Assign) and ast.unparse(st.targets[0]) == "_mgr.default"]
+    detail = []
+    ok = bool(stores)
+    is_mod = shared.parse_cond(f"isinstance({tp}, ModuleType)")
+    for st in stores:
+        if ast.unparse(st.value) != tp:
+            ok = False
+            detail.append(f"`{ast.unparse(st.value)}`")
+            continue
+        alts = shared.param_alternatives(fsd.node, tp, st)
+        if alts is None:
+            raise AnalysisError(f"idiom-unknown: {fsd.site}: how `{tp}` is bound where the default is stored")
+        for v, cds in alts:
+            cds = list(cds) + list(shared.path_conditions(fsd.node, st))
+            if v is None:
+                # the argument as given: anything that is not a PDK module has raised before this point
+                good = shared.raises_under(fsd.node, [(ast.unparse(t), pol) for t, pol in cds] + [(f"isinstance({tp}, ModuleType)", False)], noreturn_set(repo))
+                detail.append("the argument itself" + (" (a module: anything else has raised)" if good else " — NOT known to be a PDK module here"))
+            else:
+                vt = ast.unparse(v)
+                good = vt in (f"_mgr.names.get({tp}, None)", f"_mgr.names.get({tp})", f"_mgr.names[{tp}]")
+                detail.append(f"`{vt}`" + (" (the registered module of that name)" if good else " — NOT a look-up of the registered module"))
+            ok = ok and good
+    R.check(ok, rule, key_of(fsd), fsd.site, f"set_default() stores a registered PDK module whichever way it was named: {sorted(set(detail))}",
+            why="set_default('name') stores the string: default() hands it out and compile() calls `.compile` on a str")
     fd = repo.func(F_PDK, "default")
     try:
         def m_d(t):
